@@ -13,11 +13,14 @@ prop(
         dict(run="^TestPropOverlapWindows$",
              quick=dict(checks=64, shards=8, timeout=900, shrinktime='8s'),
              thorough=dict(checks=3200, shards=16, timeout=7200)),
+        dict(run="^TestPropConfigBuilt$",
+             quick=dict(checks=96, shards=8, timeout=900, shrinktime='8s'),
+             thorough=dict(checks=8000, shards=16, timeout=3600)),
         dict(run="^TestPropStress$",
-             quick=dict(checks=1200, shards=8, timeout=900, shrinktime='8s'),
+             quick=dict(checks=800, shards=8, timeout=900, shrinktime='8s'),
              thorough=dict(checks=120000, shards=16, timeout=7200)),
         dict(run="^TestStressRace$", race=True,
-             quick=dict(checks=160, shards=4, timeout=900, shrinktime='8s'),
+             quick=dict(checks=120, shards=4, timeout=900, shrinktime='8s'),
              thorough=dict(checks=32000, shards=16, timeout=7200)),
     ],
     rule="machine: FailoverGroup with one upstream (shared cache on), concurrency in {1,2,3,8}, rateLimit 1e6/s, 3-4 distinct questions "
@@ -38,7 +41,10 @@ prop(
          "step >=2 distinct questions were in flight together. overlap scenario (same executor, scripted action lists): range query A over 2-3 slices and range query B over a window "
          "that evaluates exactly the points of A's first slice (same expr and step: the only way two jobs with one key sit in the pool), concurrency = "
          "slices+1..2, as many other questions queued as there are workers, then a slice of A fails (the shared one, or another one so that A cancels the "
-         "shared one), then drawn releases; same invariants (non-trivial there: the pool was full and the client cancelled a request). stress: 3-12 callers x 2-6 waves of the same questions (fresh names per wave), "
+         "shared one), then drawn releases; same invariants (non-trivial there: the pool was full and the client cancelled a request). config-built servers: a .pint.hcl with a static prometheus{} block or a discovery{filepath{template{}}} block carrying "
+         "concurrency = N (1,2,3,5,8) is loaded with config.Load, the server is created by PrometheusGenerator (GenerateStatic / GenerateDynamic), 8-30 callers "
+         "ask distinct instant queries at once against the free-running fake (2-15 ms per answer): never more than N in flight, every question once. "
+         "stress: 3-12 callers x 2-6 waves of the same questions (fresh names per wave), "
          "drawn per-request delays 0-3 ms, GOMAXPROCS in {1,4,16}, optionally every 4th/7th non-range request fails; same counters plus "
          "in half of the schedules cache maintenance runs concurrently (FailoverGroup.CleanCache() looping in its own goroutine, 0-400 unrelated "
          "answers cached beforehand) while every caller asks all - by then answered - questions 1-4 more times; "
